@@ -115,7 +115,16 @@ fn g_timing(t: &mut Tape) -> Scenario {
     p.wide_timing = true;
     p.stalls = false;
     p.max_path = 16;
-    gen_scenario(t, &p)
+    let mut sc = gen_scenario(t, &p);
+    // "no limit" written as the largest duration there is (grace, or the minimum round time)
+    if t.chance(30) {
+        if t.chance(500) {
+            sc.tracer.grace_ns = u64::MAX;
+        } else {
+            sc.tracer.min_round_ns = u64::MAX;
+        }
+    }
+    sc
 }
 
 fn g_timing_stalls(t: &mut Tape) -> Scenario {
@@ -298,7 +307,7 @@ fn sweep(t: &mut Tape, full: bool) -> Scenario {
             scripted: Vec::new(),
             stall_pm: 0,
             stall_max_ns: 0,
-            addr_in_use_pm: 0, addr_in_use_from_round: 0, addr_in_use_udp: false, addr_in_use_burst: None,
+            addr_in_use_pm: 0, addr_in_use_from_round: 0, addr_in_use_udp: false, addr_in_use_burst: None, wall_clock_back: None,
             tick_base_ns: 50,
             tick_jitter_ns: 0,
         },
@@ -507,6 +516,42 @@ fn g_many_rounds(t: &mut Tape) -> Scenario {
 
 fn many_rounds_dims(_tier: &str) -> Vec<u32> {
     vec![fe_cfgs(), 2]
+}
+
+/// C01/C02: TCP over a path whose routers stay silent, short rounds and a connect timeout of
+/// seconds: the connections of unanswered probes pile up past the 256 the tracer keeps, while
+/// the target goes on answering; every answer is still reported for the probe it answers.
+fn g_tcp_backlog(t: &mut Tape) -> Scenario {
+    use crate::scenario::{Ports, Proto, Strat};
+    let mut sc = fault_enum_base(t.draw(2));
+    let ms = 1_000_000u64;
+    sc.tracer.proto = Proto::Tcp;
+    sc.tracer.strat = Strat::Classic;
+    sc.tracer.ports = if t.chance(500) { Ports::FixedDest(80) } else { Ports::FixedSrc(5000) };
+    sc.tracer.unprivileged = false;
+    sc.tracer.initial_seq = 33_434 + t.draw(20_000) as u16;
+    sc.tracer.max_ttl = 12;
+    sc.tracer.rounds = 70 + t.draw(60);
+    sc.tracer.min_round_ns = 0;
+    sc.tracer.max_round_ns = (1 + u64::from(t.draw(3))) * ms;
+    sc.tracer.grace_ns = ms / 10;
+    sc.tracer.read_timeout_ns = ms / 10;
+    sc.tracer.tcp_connect_timeout_ns = 10_000 * ms;
+    let hops = 4 + t.draw(5);
+    let v6 = sc.tracer.v6;
+    let template = sc.net.paths[0].routers[0].clone();
+    sc.net.paths[0].routers = (1..=hops)
+        .map(|h| {
+            let mut r = template.clone();
+            r.addr = crate::scenario::router_addr(v6, h, 0, 0);
+            r.silent = true;
+            r
+        })
+        .collect();
+    sc.net.target.tcp_open = t.chance(500);
+    sc.stable = false;
+    sc.epoch_liveness = false;
+    sc
 }
 
 /// C05: the state is cleared in the middle of a trace with many short rounds; the figures
@@ -752,6 +797,38 @@ fn g_nat(t: &mut Tape) -> Scenario {
     gen_scenario(t, &p)
 }
 
+/// C19: NAT paths on which single probes fail to be sent (transient send failures): a failed
+/// probe is not a responding hop, the comparison goes on with the hop that answered before it.
+fn g_nat_sockfaults(t: &mut Tape) -> Scenario {
+    use crate::gen::Cell;
+    use crate::scenario::{Proto, Strat};
+    let mut p = Profile::base();
+    p.nat = true;
+    p.families = [true, false];
+    p.ecmp = false;
+    p.route_change = false;
+    p.sock_faults = true;
+    p.max_rounds = 8;
+    p.max_path = 16;
+    p.cells = (1..=3).map(|ports| Cell { proto: Proto::Udp, strat: Strat::Dublin, ports, unprivileged: false }).collect();
+    let mut sc = gen_scenario(t, &p);
+    sc.faults.sock_benign_pm = 1000;
+    sc.faults.sock_pm = sc.faults.sock_pm.clamp(10, 60);
+    sc
+}
+
+/// C19: the wall clock is stepped back (by up to half a second) while probes are in flight on
+/// a NAT path, so that a response may carry a receive time before its probe's send time: the
+/// NAT column depends on checksums, not on clocks.
+fn g_nat_clock_step(t: &mut Tape) -> Scenario {
+    let mut sc = g_nat(t);
+    sc.faults.wall_clock_back = Some((8 + u64::from(t.draw(300)), (1 + u64::from(t.skewed(500))) * 1_000_000));
+    sc.faults.stall_pm = 0;
+    sc.stable = false;
+    sc.epoch_liveness = false;
+    sc
+}
+
 fn g_corrupt(t: &mut Tape) -> Scenario {
     // live mode: genuine responses are corrupted in flight while probes are outstanding
     let mut p = Profile::base();
@@ -898,7 +975,7 @@ fn sweep_scenario(t: &mut Tape, wide: bool, tier: &str) -> Scenario {
             ip_options: None,
         },
         inject: InjectCfg::default(),
-        faults: FaultCfg { sock_pm: 0, sock_benign_pm: 0, scripted: Vec::new(), stall_pm: 0, stall_max_ns: 0, addr_in_use_pm: 0, addr_in_use_from_round: 0, addr_in_use_udp: false, addr_in_use_burst: None, tick_base_ns: 100, tick_jitter_ns: 0 },
+        faults: FaultCfg { sock_pm: 0, sock_benign_pm: 0, scripted: Vec::new(), stall_pm: 0, stall_max_ns: 0, addr_in_use_pm: 0, addr_in_use_from_round: 0, addr_in_use_udp: false, addr_in_use_burst: None, wall_clock_back: None, tick_base_ns: 100, tick_jitter_ns: 0 },
         stable: true,
         light: true,
         mutation: Some(Mutation { field, value, trunc }),
@@ -1176,7 +1253,7 @@ fn fault_enum_base(cfg: u32) -> Scenario {
             ip_options: None,
         },
         inject: InjectCfg::default(),
-        faults: FaultCfg { sock_pm: 0, sock_benign_pm: 0, scripted: Vec::new(), stall_pm: 0, stall_max_ns: 0, addr_in_use_pm: 0, addr_in_use_from_round: 0, addr_in_use_udp: false, addr_in_use_burst: None, tick_base_ns: 100, tick_jitter_ns: 0 },
+        faults: FaultCfg { sock_pm: 0, sock_benign_pm: 0, scripted: Vec::new(), stall_pm: 0, stall_max_ns: 0, addr_in_use_pm: 0, addr_in_use_from_round: 0, addr_in_use_udp: false, addr_in_use_burst: None, wall_clock_back: None, tick_base_ns: 100, tick_jitter_ns: 0 },
         stable: true,
         light: true,
         mutation: None,
@@ -1290,6 +1367,21 @@ fn g_builder(t: &mut Tape) -> Scenario {
     if t.chance(200) {
         tr.min_round_ns = tr.max_round_ns + 1_000_000; // min > max is accepted by the builder
     }
+    // the state is cleared after the first round in a quarter of the runs (what the TUI's
+    // clear-trace-data does): the limits stay what the configuration says
+    if t.chance(250) {
+        sc.tracer.rounds = sc.tracer.rounds.max(3);
+        sc.clear_after_round = Some(0);
+    }
+    let tr = &mut sc.tracer;
+    // the largest duration there is, for the two settings that never reach a system call
+    if t.chance(60) {
+        if t.chance(500) {
+            tr.grace_ns = u64::MAX;
+        } else {
+            tr.min_round_ns = u64::MAX;
+        }
+    }
     // an explicit source address of the other address family (both are local to the host)
     if t.chance(80) {
         tr.explicit_source = true;
@@ -1313,6 +1405,7 @@ pub fn registry() -> Vec<PropertyCheck> {
             families: vec![
                 Family { name: "swarm", gen: g_base, oracle: oracle::c01, opts: opts_full(), quick_runs: 150_000, thorough_runs: 6_000_000, must_reach: &["fault.probe_loss", "fault.duplicate", "fault.late_delivery", "reach.late_response_handed"], enum_dims: None },
                 Family { name: "fault-free", gen: g_quiet, oracle: oracle::c01, opts: opts_full(), quick_runs: 50_000, thorough_runs: 1_500_000, must_reach: &[], enum_dims: None },
+                Family { name: "tcp-backlog", gen: g_tcp_backlog, oracle: oracle::c01, opts: opts_full(), quick_runs: 1_500, thorough_runs: 40_000, must_reach: &[], enum_dims: None },
                 Family { name: "socket-faults", gen: g_sockfaults, oracle: oracle::c01, opts: opts_full(), quick_runs: 50_000, thorough_runs: 1_500_000, must_reach: &[], enum_dims: None },
             ],
             assumptions: vec![ASSUME_SIM, ASSUME_CLOCK],
@@ -1323,6 +1416,7 @@ pub fn registry() -> Vec<PropertyCheck> {
             rule: "seeded scenarios on lossless networks where every hop answers once per probe in every quoting policy / RFC 4884 layout / TOS-TTL-checksum rewrite, long rounds sweeping the issuable sequence range per configuration cell (thorough: every sequence from 0 to the wrap in every cell), plus foreign quotations derived from genuine ones by changing exactly one identity field; non-trivial/distinct as for C01",
             families: vec![
                 Family { name: "lossless", gen: g_lossless, oracle: oracle::c02, opts: opts_light(), quick_runs: 120_000, thorough_runs: 4_000_000, must_reach: &["reach.extension_emitted", "fault.tos_rewrite"], enum_dims: None },
+                Family { name: "tcp-backlog", gen: g_tcp_backlog, oracle: oracle::c02, opts: opts_light(), quick_runs: 1_500, thorough_runs: 40_000, must_reach: &[], enum_dims: None },
                 Family { name: "socket-faults", gen: g_sockfaults, oracle: oracle::c02, opts: opts_light(), quick_runs: 40_000, thorough_runs: 1_500_000, must_reach: &[], enum_dims: None },
                 Family { name: "foreign", gen: g_foreign, oracle: oracle::c02, opts: opts_light(), quick_runs: 80_000, thorough_runs: 3_000_000, must_reach: &["handed.Foreign"], enum_dims: None },
                 Family { name: "unprivileged-paris-dublin", gen: g_unpriv_multipath, oracle: oracle::c02, opts: opts_light(), quick_runs: 5_000, thorough_runs: 100_000, must_reach: &[], enum_dims: None },
@@ -1423,6 +1517,8 @@ pub fn registry() -> Vec<PropertyCheck> {
             rule: "IPv4/UDP/Dublin traces over paths with 0..3 address/port rewriting devices at drawn distances, silent and lossy hops; per-round NAT status recomputed from the quoted checksums on the simulated wire; all other configurations must report not-applicable; non-trivial/distinct as for C01",
             families: vec![
                 Family { name: "nat", gen: g_nat, oracle: oracle::c19, opts: opts_full(), quick_runs: 100_000, thorough_runs: 4_000_000, must_reach: &["fault.nat_rewrite"], enum_dims: None },
+                Family { name: "wall-clock-step", gen: g_nat_clock_step, oracle: oracle::c19, opts: opts_full(), quick_runs: 30_000, thorough_runs: 1_000_000, must_reach: &["fault.wall_clock_step_back"], enum_dims: None },
+                Family { name: "nat-socket-faults", gen: g_nat_sockfaults, oracle: oracle::c19, opts: opts_full(), quick_runs: 40_000, thorough_runs: 1_500_000, must_reach: &["fault.nat_rewrite"], enum_dims: None },
                 Family { name: "swarm", gen: g_base, oracle: oracle::c19, opts: opts_full(), quick_runs: 40_000, thorough_runs: 1_500_000, must_reach: &[], enum_dims: None },
             ],
             assumptions: vec![ASSUME_SIM],
@@ -1457,6 +1553,7 @@ pub fn registry() -> Vec<PropertyCheck> {
             rule: "seeded scenarios with socket faults at random call sites (transient, address-in-use, fatal kinds) on top of network faults, plus the full enumeration of single scripted faults (configuration x site x phase x occurrence x errno; thorough tier also pairs) on a fault-free base run; round count / error hand-off / Failed / Skipped semantics; non-trivial/distinct as for C01",
             families: vec![
                 Family { name: "socket-faults", gen: g_sockfaults, oracle: oracle::c09, opts: opts_light(), quick_runs: 150_000, thorough_runs: 6_000_000, must_reach: &[], enum_dims: None },
+                Family { name: "timing", gen: g_timing, oracle: oracle::c09, opts: opts_light(), quick_runs: 30_000, thorough_runs: 1_000_000, must_reach: &[], enum_dims: None },
                 Family { name: "swarm", gen: g_base, oracle: oracle::c09, opts: opts_light(), quick_runs: 50_000, thorough_runs: 2_000_000, must_reach: &[], enum_dims: None },
                 Family { name: "single-fault-enumeration", gen: fault_enum_single, oracle: oracle::c09, opts: opts_light(), quick_runs: 0, thorough_runs: 0, must_reach: &[], enum_dims: Some(fault_enum_single_dims) },
                 Family { name: "fault-pair-enumeration", gen: fault_enum_pair, oracle: oracle::c09, opts: opts_light(), quick_runs: 0, thorough_runs: 0, must_reach: &[], enum_dims: Some(fault_enum_pair_dims) },
